@@ -142,6 +142,8 @@ def run(ctx):
     ol2 = ["msg.own_typed\t%s\t%s\t%s" % (hx(U(d)), hx(U(c)), sh) for d in owd for c in owc for sh in ("raw", "single", "multi")]
     for line, r in zip(ol2, run_impl(ol2)):
         ctx.count()
+        if r.startswith("UNKNOWN") or r == "PANIC":
+            unexpl.append(({"name": "message", "value": line}, "harness: %s" % r[:60])); continue
         if not r.startswith("ok\t"):
             continue                      # the builder may refuse (e.g. an encoding the body does not fit): nothing is emitted
         msg = unhx(r.split("\t")[1])
